@@ -7,7 +7,7 @@
    LL(1) parser), [doc_* bs] is the intended document: rows grouped by runs of equal fingerprint. *)
 From Coq Require Import List NArith ZArith Bool Ascii String.
 From Qryn Require Import model.GoFloat model.JsonStream proofs.JsonStreamProofs proofs.JsonSpliceProofs
-  proofs.GoFloatProofs proofs.JsonNumProofs.
+  proofs.GoFloatProofs proofs.JsonNumProofs proofs.JsonSeriesProofs.
 Import ListNotations.
 Open Scope string_scope.
 Open Scope list_scope.
@@ -171,8 +171,8 @@ Example pieces_met :
                           ("y", JStr (String (chr 240) (String (chr 159) (String (chr 152) (String (chr 128) EmptyString)))))];
                     JObj []].
 Proof. repeat constructor; vm_compute; reflexivity. Qed.
-(* ... and it is not when a stored label text is not JSON (the recorded finding: the writer stores
-   strconv.Quote text, C04) *)
+(* ... and it is not when a spliced text is not JSON: what /series did before the repair c1ef9d9 with the
+   strconv.Quote text the writer stored (C04 #12); the handler no longer splices, see doc_wellformed_series_reencoded *)
 Example series_with_bad_stored_text : parse_bytes (enc_series_bytes ["{""a"":""\x01""}"]) = None.
 Proof. vm_compute. reflexivity. Qed.
 
@@ -324,3 +324,14 @@ Theorem doc_wellformed_prom_scalar_row : forall r,
   parse_bytes (render (enc_prom_scalar (prom_scalar_of r))) = Some (doc_prom_scalar (prom_scalar_of r)).
 Proof. exact prom_scalar_row_bytes. Qed.
 Print Assumptions doc_wellformed_prom_scalar_row.
+
+(* /loki/api/v1/series after the repair: every stored label text is decoded (JSON, or the strconv.Quote form of
+   rows written before the writer was repaired; a text that is neither is skipped) and the label map is encoded again
+   with json.Marshal. For EVERY list of label maps - any bytes in names and values - the body is one document:
+   the maps in order, names and values with invalid UTF-8 replaced by U+FFFD. No hypothesis on stored texts is left. *)
+Theorem doc_wellformed_series_reencoded : forall ms, parse_bytes (render (enc_series ms)) = Some (doc_series ms).
+Proof. exact series_reencoded_bytes. Qed.
+Print Assumptions doc_wellformed_series_reencoded.
+Example series_reencoded_met :
+  render (enc_series [[("a", String (chr 1) "")]; []]) = "{""status"":""success"", ""data"":[{""a"":""\u0001""},{}]}".
+Proof. vm_compute. reflexivity. Qed.
